@@ -8,6 +8,7 @@ import MoThreads.Driver.M3
 import MoThreads.Driver.M4
 import MoThreads.Driver.M6
 import MoThreads.Driver.M5
+import MoThreads.Driver.M7
 open MoThreads.Driver
 
 inductive Model
@@ -17,6 +18,7 @@ inductive Model
   | m4 (m : M4.Sim)
   | m6 (m : M6.Sim)
   | m5 (m : M5.Sim)
+  | m7 (m : M7.Sim)
 
 structure DState where
   runId : String := ""
@@ -41,6 +43,7 @@ def finish (d : DState) : IO Unit := do
     | .m4 m => IO.println s!"ok {d.runId} steps={m.steps}"
     | .m6 m => IO.println s!"ok {d.runId} steps={m.steps}"
     | .m5 m => IO.println s!"ok {d.runId} steps={m.steps}"
+    | .m7 m => IO.println s!"ok {d.runId} steps={m.steps}"
     | .none => IO.println s!"ok {d.runId} steps=0"
 
 def startRun (ws : List String) : Except String Model :=
@@ -51,6 +54,9 @@ def startRun (ws : List String) : Except String Model :=
     .ok (.m1 (M1.start never rs))
   | _ :: _ :: "m3" :: _ => .ok (.m3 M3.start)
   | _ :: _ :: "m5" :: _ => .ok (.m5 M5.start)
+  | _ :: _ :: "m7" :: rest =>
+    let fl := (kv rest "fails").splitOn "," |>.filterMap String.toNat? |>.map (· != 0)
+    .ok (.m7 (M7.start ((kv rest "batch").toNat?.getD 1) fl))
   | _ :: _ :: "m6" :: rest => .ok (.m6 (M6.start ((kv rest "I").toNat?.getD 128)))
   | _ :: _ :: "m4" :: rest =>
     let mx := (kv rest "max").toNat?.getD 1024
@@ -104,6 +110,12 @@ partial def loop (h : IO.FS.Stream) (d : DState) : IO Unit := do
       | .m5 m =>
         match M5.feed m ws with
         | .ok m' => loop h { d with model := .m5 m' }
+        | .error e =>
+          IO.println s!"FAIL {d.runId} line={d.lineNo} {e}"
+          loop h { d with failed := true }
+      | .m7 m =>
+        match M7.feed m ws with
+        | .ok m' => loop h { d with model := .m7 m' }
         | .error e =>
           IO.println s!"FAIL {d.runId} line={d.lineNo} {e}"
           loop h { d with failed := true }
